@@ -96,6 +96,31 @@ Proof. split; [|split]; [| reflexivity | vm_compute; reflexivity].
   apply Exists_cons_hd. split; reflexivity.
 Qed.
 
+(* Schedules, not only histories: the publish / graceful-close race (F20).  For ANY number of
+   publishers in progress and ANY interleaving of their steps with Topic.exit's - lock, flag
+   and flush statements as the CURRENT source has them (proofs/HandoffSrc.v) - no publish is
+   acknowledged without being among what the close writes to disk. *)
+From NSQV Require model.Handoff proofs.HandoffProofs proofs.HandoffSrc proofs.HandoffCompose.
+Theorem C01_publish_vs_close_every_schedule : forall ks sched,
+  forallb HandoffProofs.locked ks = true -> forall m,
+  let st := Handoff.run (Handoff.init ks HandoffCompose.src_topic_close) sched in
+  In m (Handoff.movers st) -> Handoff.lost st m = false /\ Handoff.missed st = false.
+Proof. exact HandoffCompose.topic_close_loses_no_publish. Qed.
+Print Assumptions C01_publish_vs_close_every_schedule.
+
+Theorem C01_publishers_follow_the_protocol :
+  HandoffSrc.topic_mover CoreShape.shape_Topic_PutMessage = true /\ HandoffSrc.topic_mover CoreShape.shape_Topic_PutMessages = true.
+Proof. exact HandoffSrc.src_topic_publishers_locked. Qed.
+Print Assumptions C01_publishers_follow_the_protocol.
+
+(* the statement is not vacuous and not trivially true: with the read lock (the source before
+   56cbfc9) one publisher and this schedule lose an acknowledged message *)
+Theorem C01_read_lock_close_refuted :
+  exists sched m, In m (Handoff.movers (Handoff.run (Handoff.init [Handoff.Publish] (Handoff.topic_exit_prog Handoff.RMode)) sched))
+                  /\ Handoff.lost (Handoff.run (Handoff.init [Handoff.Publish] (Handoff.topic_exit_prog Handoff.RMode)) sched) m = true.
+Proof. exact HandoffProofs.read_lock_closer_refuted. Qed.
+Print Assumptions C01_read_lock_close_refuted.
+
 (* The model is tied to the CURRENT source: the order-of-effects facts about nsqd's core
    functions that the model assumes (proofs/CoreSrcDefs.v) hold of the statement skeletons
    regenerated from /repo on this run (gen/CoreShape.v). *)
